@@ -338,6 +338,20 @@ fn roundtrips(cx: &mut Cx, victim: NodeId, h: &Arc<Honest>, art: Art) {
             });
         });
     }
+    if art == Art::Commitment || art == Art::Zkpok {
+        // the same artefact over NO committed message (an empty response list) through every codec
+        cx.step(victim, "commitment-to-nothing-roundtrips", StepOpts::default(), move || {
+            let (cwp, _) = api::commit(suite, &Some(vec![]))?;
+            let b: Bytes = if art == Art::Zkpok { cwp[48..].to_vec() } else { cwp };
+            let j = api::to_json(suite, art, &b)?;
+            let back = api::from_json(suite, art, &j).map_err(|e| format!("JSON {j} does not decode: {e}"))?;
+            let oct = api::decode_reencode(suite, art, &b)?;
+            Ok::<_, String>(back == b && oct == b)
+        }, move |cx, st| {
+            cx.eval(&[b"commit-to-nothing", art.name().as_bytes()], true);
+            match st.out { Ok(Ok(true)) => {} other => cx.violation("C09", format!("{}/roundtrip/over-no-committed-message", art.name()), format!("{other:?}")) }
+        });
+    }
     if art == Art::Pk {
         // the key store on disk: the library's own writer, a path with a HISTORY (nothing there / a
         // longer older document / a shorter one / another key pair written just before), a crash
